@@ -35,8 +35,9 @@ def chain_cases(maxlen):
     return out
 
 
-def build_pair(chain):
-    """-> (case_with_chain, case_plain) sharing the same symbolic literals."""
+def build_pair(chain, timeat=False):
+    """-> (case_with_chain, case_plain) sharing the same symbolic literals.  With timeat the pending
+    delay is a time-of-day wait instead of a number."""
     m0 = chain[0]
     sid = [0]
     doms = {}
@@ -50,11 +51,11 @@ def build_pair(chain):
         pre.append(R.SetReg(r, num(d)))
     pre.append(R.SetReg('kelvin', num(('int', 1500, 9000))))
     tmax = 10 ** 6 if m0 != 'raw' else 10 ** 9
-    pre.append(R.SetReg('time', num(('real', 0, tmax))))
+    pre.append(R.TimeAt(['8:00', '2*:*5']) if timeat else R.SetReg('time', num(('real', 0, tmax))))
     pre.append(R.SetReg('duration', num(('real', 0, tmax))))
     tail = [R.Action('set', [R.Operand('light', R.Str('A'))]), R.Action('on', [R.Operand('light', R.Str('B'))])]
     sw = [R.Units(m) for m in chain[1:]]
-    tag = '>'.join(chain)
+    tag = '>'.join(chain) + (' [time at]' if timeat else '')
     return (scripth.Case(pre + sw + tail, tag=tag, doms=doms), scripth.Case(pre + tail, tag=tag + ' (plain)', doms=doms))
 
 
@@ -88,6 +89,8 @@ def fold_delays(trace):
     for e in trace:
         if e[0] == 'pause':
             pending = pending + e[1]
+        elif e[0] == 'wait_until':
+            out.append(('wait_until %s' % (e[1],), 0))
         else:
             out.append(tuple(e) + (pending,))
             pending = 0
@@ -96,10 +99,10 @@ def fold_delays(trace):
 
 def pair_worker(args):
     chain = args['chain']
-    res = report.WorkResult('>'.join(chain))
+    res = report.WorkResult('>'.join(chain) + (' [time at]' if args.get('timeat') else ''))
     world.start_function_trace()
     res.sites.add('relational')
-    ca, cb = build_pair(chain)
+    ca, cb = build_pair(chain, args.get('timeat', False))
     rgb = 'rgb' in chain
     mode = 'elide' if rgb else 'exact'
     proga, slotsa = scripth.compile_case(ca)
@@ -315,6 +318,8 @@ def run(tier, seed):
     chains.sort(key=lambda c: (sum(m == 'rgb' for m in c), len(c)))
     items += [{'chain': c, 'timeout_ms': 10000 if tier == 'quick' else 30000, 'max_paths': 3000,
                'budget_s': 40 if tier == 'quick' else 150} for c in chains]
+    # the pending delay may be a time-of-day wait: it must survive the switches untouched
+    items += [{'chain': c, 'timeat': True, 'timeout_ms': 10000, 'max_paths': 3000, 'budget_s': 40} for c in chains if len(c) <= 3 and 'rgb' not in c[1:-1]]
     results, skipped = report.run_pool(dispatch, items, budget_s=common.tier_budget(tier, 80, 1000))
     return report.finish(
         PROP, tier, seed, 'exploration', results, skipped,
